@@ -70,7 +70,7 @@ def t_ignore_filter(ex):
     entries = ([], ["/lib/modules/*"], ["/var/lib/foo"], ["/var/lib/foo/", "*.bak", "/lib/modules"])[ex.choose(4)]
     P = f"C21.gen_collision_ignore_filter[{entries}]"
     it = Interp(ex, label=P)
-    it.models[t.collapse_envd] = lambda it_, base: ({"COLLISION_IGNORE": list(entries)} if entries else {}, set(), set())
+    it.models[t.collapse_envd] = lambda it_, base: ({"COLLISION_IGNORE": " ".join(entries)} if entries else {}, set(), set())   # not an incremental: one string
     it.models[os.path.isdir] = lambda it_, p: not any(c in p for c in "*?")   # every non-glob entry names an existing directory
     out = call(it, it.target(TRG, "gen_collision_ignore_filter"), "/")
     ex.oblige(f"{P}.raises.nothing", not out.raised, kind="exceptional-postcondition")
